@@ -1355,6 +1355,8 @@ package framework
 //@   nopanic off
 //@   note nopanic off: podGroup.Namespace is read for log lines only (a nil podGroup is the caller's matter)
 //@   requires ssn != nil
+//@   requires [podSetsCoverSubGroup] subgroup_info.podSetsCover(subGroupInfo.parent, subGroupInfo.name, podSets)
+//@   requires [podSetsOnlyOfSubGroup] subgroup_info.podSetsOnly(subGroupInfo.parent, subGroupInfo.name, podSets)
 //@   assume forall i int :: 0 <= i && i < len(ssn.SubsetNodesFns) ==> ssn.SubsetNodesFns[i] != nil
 //@   note assumed: no nil function is registered
 //@   assume forall j int :: 0 <= j && j < len(initNodeSet) ==> initNodeSet[j] != nil
